@@ -344,6 +344,13 @@ func (a *Activation) stdlibCall(st *State, callee *ssa.Function, cc *ssa.CallCom
 			g.trusted["sort.Ints: result is non-decreasing and a permutation of the input (explicit bijection); pairwise distinct input gives strictly increasing output"] = true
 		}
 		return Val{}, true
+	case "sort.Search":
+		// only the range of the result is modelled: 0 <= r <= n (not "least index")
+		mark()
+		g.trusted["sort.Search: result lies in [0, n] (the least-index property is not modelled)"] = true
+		r := g.fresh("search", bvSort(64))
+		g.assertLine(and(bvcmp("bvsle", bv64(0), r), implies(bvcmp("bvsle", bv64(0), args[0].T), bvcmp("bvsle", r, args[0].T))), r)
+		return Val{T: r}, true
 	case "strconv.Atoi", "strconv.ParseInt", "strconv.ParseUint":
 		mark()
 		g.trusted["strconv.Atoi/ParseInt: uninterpreted (any integer result, any error); only totality is assumed"] = true
